@@ -447,6 +447,9 @@ func (u *Universe) proposalFault(s *Shard) ProposalFault {
 // has applied the entry.
 func (nh *NodeHost) SyncPropose(ctx context.Context, session *client.Session, cmd []byte) (sm.Result, error) {
 	u := nh.u
+	if y := u.Yield; y != nil {
+		y()
+	}
 	if g := u.Gate; g != nil && session != nil {
 		g("propose", nh.addr, session.ShardID, cmd)
 	}
@@ -561,6 +564,9 @@ func newEntry(s *Shard, cmd []byte) pb.Entry {
 // SyncRead performs a linearizable read: everything committed at call time is applied locally first.
 func (nh *NodeHost) SyncRead(ctx context.Context, shardID uint64, query interface{}) (interface{}, error) {
 	u := nh.u
+	if y := u.Yield; y != nil {
+		y()
+	}
 	if g := u.Gate; g != nil {
 		g("syncread", nh.addr, shardID, query)
 	}
@@ -610,6 +616,9 @@ func lookup(r *Replica, query interface{}) (res interface{}, err error) {
 // StaleRead queries the local replica directly.
 func (nh *NodeHost) StaleRead(shardID uint64, query interface{}) (interface{}, error) {
 	u := nh.u
+	if y := u.Yield; y != nil {
+		y()
+	}
 	if g := u.Gate; g != nil {
 		g("staleread", nh.addr, shardID, query)
 	}
